@@ -44,7 +44,7 @@ fn check_decode_array<const N: usize, const M: usize>(rev: bool) {
 #[kani::proof]
 #[kani::unwind(5)]
 fn ob_decode_rev_array() { check_decode_array::<1, 4>(true); check_decode_array::<3, 8>(true); }
-// @ob id=hex.decode_array.eq_model.12 props=C05,C04,C07,C17 rows=plain,lowmem-a,lowmem-b,lowmem-c quick=plain quick.C07=plain,lowmem-a,lowmem-b,lowmem-c kind=HC fn=parse::hex_str::decode_array<12> domain="all inputs of length 0..=26"
+// @ob id=hex.decode_array.eq_model.12 props=C05,C04,C07,C17 rows=plain,lowmem-a,lowmem-b,lowmem-c quick=plain,lowmem-a,lowmem-b,lowmem-c kind=HC fn=parse::hex_str::decode_array<12> domain="all inputs of length 0..=26"
 #[kani::proof]
 #[kani::unwind(14)]
 fn ob_decode_array_12() { check_decode_array::<12, 26>(false); }
@@ -106,11 +106,11 @@ fn encode_array_real<const N: usize>(dst: &mut [u8], src: &[u8; N]) { model_enco
 #[kani::proof]
 #[kani::unwind(10)]
 fn ob_encode_rev_array() { check_encode_array::<1, 10>(true); check_encode_array::<3, 14>(true); }
-// @ob id=hex.encode_array.eq_model.12 props=C04,C14,C07,C17 rows=plain,lowmem-b quick=plain quick.C07=plain,lowmem-b kind=HC fn=parse::hex_str::encode_array<12> domain="all sources x destination length 24..=32"
+// @ob id=hex.encode_array.eq_model.12 props=C04,C14,C07,C17 rows=plain,lowmem-b quick=plain,lowmem-b kind=HC fn=parse::hex_str::encode_array<12> domain="all sources x destination length 24..=32"
 #[kani::proof]
 #[kani::unwind(18)]
 fn ob_encode_array_12() { check_encode_array::<12, 32>(false); }
-// @ob id=hex.encode_array.eq_model.32 props=C04,C14,C07,C17 rows=plain,lowmem-b quick=plain quick.C07=plain,lowmem-b kind=HC fn=parse::hex_str::encode_array<32> domain="all sources x destination length 64..=72"
+// @ob id=hex.encode_array.eq_model.32 props=C04,C14,C07,C17 rows=plain,lowmem-b quick=plain,lowmem-b kind=HC fn=parse::hex_str::encode_array<32> domain="all sources x destination length 64..=72"
 #[kani::proof]
 #[kani::unwind(38)]
 fn ob_encode_array_32() { check_encode_array::<32, 72>(false); }
